@@ -32,6 +32,8 @@ def gen_plan(base_seed, i, tier):
     rng = common.rng_for(base_seed, "C05", i)
     n = rng.randint(1, 7)
     rows = common.pick_rows(rng, n, {"rule-based": 2, "input-balanced": 2, "mcs-based": 1, "declined": 1, "mapped": 1})
+    if rng.random() < 0.3:  # the same reaction more than once (each copy keeps its own pass-through values)
+        rows.insert(rng.randint(0, len(rows)), rng.choice(rows))
     source = rng.choice(["list", "list", "dict", "csv", "json", "cli"])
     npoison = rng.choice([0, 1, 1, 1, 2, 3])
     kinds = []
@@ -43,6 +45,8 @@ def gen_plan(base_seed, i, tier):
         pos = rng.randint(0, len(rows))
         rows.insert(pos, val)
         kinds.append(kind)
+        if rng.random() < 0.2:  # the same malformed value twice
+            rows.insert(rng.randint(0, len(rows)), val)
     if source == "cli":
         # the CLI validates the first row itself (check_columns); keep a valid row first
         if not isinstance(rows[0], str) or ">>" not in rows[0] or rows[0] in sum(POISON.values(), []):
